@@ -886,6 +886,25 @@ fn gen_eq(rng: &mut Rng, tier: Tier, n: usize) -> Vec<String> {
     }
     let max_segs = if tier == Tier::Thorough { 8 } else { 5 };
     while out.len() < n {
+        if rng.chance(1, 12) {
+            // the literal fast path (both sides a single text part), also against split copies of the same text
+            let words = ["", "a", "é", "aé", "ab", "{x}", "🎈📌", "a b"];
+            let k = if rng.chance(1, 3) { 3 } else { 2 };
+            let ts: Vec<T> = (0..k)
+                .map(|i| {
+                    let w = *rng.pick(&words);
+                    if i == 2 {
+                        let cs: Vec<char> = w.chars().collect();
+                        let cut = rng.usize(cs.len() + 1);
+                        T { kind: Kind::Ref, parts: vec![P::Text(cs[..cut].iter().collect()), P::Text(cs[cut..].iter().collect())] }
+                    } else {
+                        T { kind: if rng.chance(3, 4) { Kind::Lit } else { Kind::Owned }, parts: vec![P::Text(w.to_string())] }
+                    }
+                })
+                .collect();
+            out.push(eq_case(&ts));
+            continue;
+        }
         let base = gen_meaning(rng, max_segs);
         let k = if rng.chance(2, 5) { 3 } else { 2 };
         let mut ts = Vec::new();
